@@ -61,7 +61,7 @@ META = {
     "level_note": "Trusted: vf.gen.pygen, the C08 layout/exclusion generator, networkx edge iteration of the CDG graph.",
 }
 PLAN = {
-    "quick": {"shards": 16, "examples": 320, "max_stmts": 14, "max_funcs": 2},
+    "quick": {"shards": 16, "examples": 256, "max_stmts": 14, "max_funcs": 2, "timeout": 2400, "shrink_sigs": 2, "shrink_seconds": 30},
     "thorough": {"shards": 16, "examples": 24000, "timeout": 3000, "max_stmts": 24, "max_funcs": 3},
 }
 FEATURES = {"if", "while", "for", "loopctl", "try", "raise", "with", "match", "closure", "genfunc", "class", "assert", "boolop",
